@@ -209,7 +209,8 @@ def run_req(rec, case):
 ODD = ['bad-utf8-header', 'bad-utf8-query', 'dup-header', 'chunked-body',
        'no-query', 'huge-header', 'odd-accept-encoding', 'lowercase-method',
        'no-host', 'origin-and-cors-request-headers', 'encoded-path',
-       'client-gone-before-body']
+       'client-gone-before-body', 'upgrade-header-without-connection',
+       'upgrade-header-connection-close']
 
 
 def run_odd(rec, case):
@@ -226,6 +227,14 @@ def run_odd(rec, case):
     desc = 'ODD %s %s state=%s server=%s' % (odd, method, state, srv)
 
     def V(key, msg):
+        # known finding K10 is keyed by its mechanism: an OPEN request (no
+        # sid) naming the websocket transport with an Upgrade header but
+        # without the Connection: upgrade token, answered with no / a
+        # malformed response
+        if odd.startswith('upgrade-header-') and method == 'GET' and \
+                state == 'absent' and key in ('gateway-protocol',
+                                              'status-outside-set'):
+            key = 'upgrade-header-without-connection-upgrade'
         rec.viol(key, msg + ' | ' + desc, case)
     try:
         sid, keep = prepare(sim, state)
@@ -285,6 +294,16 @@ def run_odd(rec, case):
             if srv == 'T':
                 return
             sim.client_gone_early = True
+        elif odd in ('upgrade-header-without-connection',
+                     'upgrade-header-connection-close'):
+            # a plain HTTP request (NOT a WebSocket handshake: no
+            # "Connection: upgrade") that still carries "Upgrade: websocket"
+            # and names the websocket transport - what a proxy forwarding
+            # Upgrade but not the hop-by-hop Connection header produces
+            q['transport'] = 'websocket'
+            headers['Upgrade'] = 'websocket'
+            if odd.endswith('close'):
+                headers['Connection'] = 'close'
         elif odd == 'encoded-path':
             kw['path'] = '/engine.io/%2e%2e/x'
         if srv == 'A' and 'scope_extra_headers' in kw:
